@@ -125,6 +125,125 @@ Definition sar0_frame (ch : dtype_chain) (bits : Z) (vmax : b64) (xs : list b64)
   | Some w => Some (w, map (sar0_code w bits vmax) xs)
   end.
 
+(* ---------------------------------------------------------------- the detector-level models
+   simple_adc / sar_adc / sar_adc_with_noise: which detector attribute feeds which argument of the
+   converter, how the output type is chosen, and that detector.image.array receives the converter's
+   result.  The wiring records are REGENERATED from the source (Gen_C16); the functions below give them
+   their meaning. *)
+
+Inductive src :=
+  | FromBits        (* detector.characteristics.adc_bit_resolution *)
+  | FromRangeLo     (* first component of detector.characteristics.adc_voltage_range *)
+  | FromRangeHi     (* second component *)
+  | FromSignal      (* detector.signal.array *)
+  | FromRows        (* detector.geometry.row *)
+  | FromCols        (* detector.geometry.col *)
+  | FromStrengths   (* the model argument `strengths` as a float array *)
+  | FromNoises      (* the model argument `noises` as a float array *)
+  | FromOther.      (* anything else *)
+
+Inductive dtype_rule :=
+  | DtGetDtypeOf (s : src)               (* get_dtype(s) *)
+  | DtOverrideElseGetDtypeOf (s : src)   (* np.dtype(data_type) if data_type else get_dtype(s) *)
+  | DtOther.
+
+Record simple_wiring := {
+  sw_signal : src; sw_bits : src; sw_vmin : src; sw_vmax : src; sw_dtype : dtype_rule;
+  sw_store_image : bool    (* detector.image.array = the converter's result, unchanged, last statement *)
+}.
+Record sar_wiring := {
+  rw_signal : src; rw_rows : src; rw_cols : src; rw_vmin : src; rw_vmax : src; rw_bits : src;
+  rw_store_image : bool
+}.
+Record sar0_wiring := {
+  nw_signal : src; nw_rows : src; nw_cols : src; nw_strengths : src; nw_noises : src;
+  nw_vmax : src; nw_bits : src;
+  nw_guard_strengths : bool;  (* len(strengths) != adc_bit_resolution -> ValueError, before the call *)
+  nw_guard_noises : bool;
+  nw_store_image : bool
+}.
+
+(* a detector as far as the converters are concerned: one row of voltages *)
+Record adc_detector := {
+  d_bits : Z; d_lo : b64; d_hi : b64; d_signal : list b64; d_rows : Z; d_cols : Z
+}.
+
+Definition src_eqb (a b : src) : bool :=
+  match a, b with
+  | FromBits, FromBits | FromRangeLo, FromRangeLo | FromRangeHi, FromRangeHi | FromSignal, FromSignal
+  | FromRows, FromRows | FromCols, FromCols | FromStrengths, FromStrengths | FromNoises, FromNoises => true
+  | _, _ => false
+  end.
+
+Definition pickZ (s : src) (d : adc_detector) : option Z :=
+  match s with FromBits => Some (d_bits d) | FromRows => Some (d_rows d) | FromCols => Some (d_cols d) | _ => None end.
+Definition pickF (s : src) (d : adc_detector) : option b64 :=
+  match s with FromRangeLo => Some (d_lo d) | FromRangeHi => Some (d_hi d) | _ => None end.
+Definition pickL (s : src) (d : adc_detector) : option (list b64) :=
+  match s with FromSignal => Some (d_signal d) | _ => None end.
+
+(* the output width: data_type (given as its width in bits) overrides get_dtype *)
+Definition pick_width (ch : dtype_chain) (r : dtype_rule) (d : adc_detector) (data_type : option Z) : option Z :=
+  match r with
+  | DtGetDtypeOf s => match pickZ s d with Some b => chain_width ch b | None => None end
+  | DtOverrideElseGetDtypeOf s =>
+      match data_type with
+      | Some w => Some w
+      | None => match pickZ s d with Some b => chain_width ch b | None => None end
+      end
+  | DtOther => None
+  end.
+
+(* what detector.image.array holds after the model ran: None = no image / an exception *)
+Definition run_simple (ch : dtype_chain) (w : simple_wiring) (d : adc_detector) (data_type : option Z)
+  : option (Z * list (option Z)) :=
+  match pickZ (sw_bits w) d, pickF (sw_vmin w) d, pickF (sw_vmax w) d, pickL (sw_signal w) d with
+  | Some b, Some lo, Some hi, Some xs =>
+      match pick_width ch (sw_dtype w) d data_type with
+      | Some wd => if sw_store_image w then Some (wd, map (simple_code wd b lo hi) xs) else None
+      | None => None
+      end
+  | _, _, _, _ => None
+  end.
+
+(* the shape arguments must be the detector's own (np.zeros((num_rows, num_cols)) is indexed with a mask
+   of the signal's shape) *)
+Definition run_sar (ch : dtype_chain) (w : sar_wiring) (d : adc_detector) : option (Z * list (option Z)) :=
+  match pickZ (rw_bits w) d, pickF (rw_vmax w) d, pickL (rw_signal w) d, pickZ (rw_rows w) d, pickZ (rw_cols w) d with
+  | Some b, Some hi, Some xs, Some r, Some c =>
+      if (r =? d_rows d) && (c =? d_cols d) && rw_store_image w then sar_frame ch b hi xs else None
+  | _, _, _, _, _ => None
+  end.
+
+(* strengths / noises all zero, of length n *)
+Definition run_sar0 (ch : dtype_chain) (w : sar0_wiring) (d : adc_detector) (n_strengths n_noises : Z)
+  : option (Z * list (option Z)) :=
+  if (nw_guard_strengths w && negb (n_strengths =? d_bits d)) || (nw_guard_noises w && negb (n_noises =? d_bits d))
+  then None    (* ValueError *)
+  else
+  match pickZ (nw_bits w) d, pickF (nw_vmax w) d, pickL (nw_signal w) d, pickZ (nw_rows w) d, pickZ (nw_cols w) d with
+  | Some b, Some hi, Some xs, Some r, Some c =>
+      if (r =? d_rows d) && (c =? d_cols d) && nw_store_image w
+         && src_eqb (nw_strengths w) FromStrengths && src_eqb (nw_noises w) FromNoises
+      then sar0_frame ch b hi xs else None
+  | _, _, _, _, _ => None
+  end.
+
+(* the wiring the property text describes *)
+Definition simple_wiring_ok (w : simple_wiring) : bool :=
+  src_eqb (sw_signal w) FromSignal && src_eqb (sw_bits w) FromBits && src_eqb (sw_vmin w) FromRangeLo
+  && src_eqb (sw_vmax w) FromRangeHi
+  && match sw_dtype w with DtGetDtypeOf FromBits | DtOverrideElseGetDtypeOf FromBits => true | _ => false end
+  && sw_store_image w.
+Definition sar_wiring_ok (w : sar_wiring) : bool :=
+  src_eqb (rw_signal w) FromSignal && src_eqb (rw_rows w) FromRows && src_eqb (rw_cols w) FromCols
+  && src_eqb (rw_vmax w) FromRangeHi && src_eqb (rw_bits w) FromBits && rw_store_image w.
+Definition sar0_wiring_ok (w : sar0_wiring) : bool :=
+  src_eqb (nw_signal w) FromSignal && src_eqb (nw_rows w) FromRows && src_eqb (nw_cols w) FromCols
+  && src_eqb (nw_strengths w) FromStrengths && src_eqb (nw_noises w) FromNoises
+  && src_eqb (nw_vmax w) FromRangeHi && src_eqb (nw_bits w) FromBits
+  && nw_guard_strengths w && nw_guard_noises w && nw_store_image w.
+
 (* ---------------------------------------------------------------- the property's right-hand side
    (the specification the implementation's output is judged against; also the search oracle) *)
 
@@ -193,7 +312,11 @@ Inductive adc_kind := Simple | Sar | Sar0.
 Record adc_case := {
   kind : adc_kind; bits : Z; vmin : b64; vmax : b64; xs : list b64;   (* xs sorted ascending *)
   observed : option (Z * list Z);
-  twin : option (list Z)   (* Sar0 only: what the noise-free converter returned on the same frame *)
+  twin : option (list Z);  (* Sar0 only: what the noise-free converter returned on the same frame *)
+  via_model : bool;        (* true: through the detector-level model (simple_adc / sar_adc / sar_adc_with_noise)
+                              on a 1 x n detector; false: the converter function called directly *)
+  data_type : option Z;    (* Simple only: width of an explicit output type (data_type= / dtype=) *)
+  n_strengths : Z; n_noises : Z   (* Sar0 through the model: lengths of the two argument tuples *)
 }.
 (* All three converters work on a binary64 copy of the signal frame (np.asarray / np.array with
    dtype=float), so a float32 / float16 frame is handed to the model as the binary64 numbers it converts
@@ -206,18 +329,42 @@ Fixpoint listZ_eqb (a b : list Z) : bool :=
   | _, _ => false
   end.
 
-Definition model_of (ch : dtype_chain) (c : adc_case) : option (Z * list (option Z)) :=
-  match kind c with
-  | Simple => simple_frame ch (bits c) (vmin c) (vmax c) (xs c)
-  | Sar => sar_frame ch (bits c) (vmax c) (xs c)
-  | Sar0 => sar0_frame ch (bits c) (vmax c) (xs c)
-  end.
+Definition det_of (c : adc_case) : adc_detector :=
+  {| d_bits := bits c; d_lo := vmin c; d_hi := vmax c; d_signal := xs c;
+     d_rows := 1; d_cols := Z.of_nat (length (xs c)) |}.
 
-Definition case_mismatch (ch : dtype_chain) (c : adc_case) : bool :=
-  negb (frame_agree (model_of ch c) (observed c)).
+Definition model_of (ch : dtype_chain) (sw : simple_wiring) (rw : sar_wiring) (nw : sar0_wiring)
+  (c : adc_case) : option (Z * list (option Z)) :=
+  if via_model c then
+    match kind c with
+    | Simple => run_simple ch sw (det_of c) (data_type c)
+    | Sar => run_sar ch rw (det_of c)
+    | Sar0 => run_sar0 ch nw (det_of c) (n_strengths c) (n_noises c)
+    end
+  else
+    match kind c with
+    | Simple => match data_type c with
+                | Some wd => Some (wd, map (simple_code wd (bits c) (vmin c) (vmax c)) (xs c))
+                | None => simple_frame ch (bits c) (vmin c) (vmax c) (xs c)
+                end
+    | Sar => sar_frame ch (bits c) (vmax c) (xs c)
+    | Sar0 => sar0_frame ch (bits c) (vmax c) (xs c)
+    end.
+
+Definition case_mismatch ch sw rw nw (c : adc_case) : bool :=
+  negb (frame_agree (model_of ch sw rw nw c) (observed c)).
+
+(* a noisy-variant call whose tuples do not have adc_bit_resolution elements is refused (ValueError): that
+   is not one of the allowed settings, the specification says nothing about it *)
+Definition allowed_setting (c : adc_case) : bool :=
+  match kind c with
+  | Sar0 => if via_model c then (n_strengths c =? bits c) && (n_noises c =? bits c) else true
+  | _ => true
+  end.
 
 (* the allowed settings: 4 <= bits <= 64 and vmin < vmax; on them the implementation must not raise *)
 Definition case_violates (c : adc_case) : bool :=
+  if negb (allowed_setting c) then false else
   match observed c with
   | None => true
   | Some (w, cs) =>
@@ -229,5 +376,5 @@ Definition case_violates (c : adc_case) : bool :=
             end)
   end.
 
-Definition mismatches ch (cs : list adc_case) : list Z := indices_where (case_mismatch ch) cs 0.
+Definition mismatches ch sw rw nw (cs : list adc_case) : list Z := indices_where (case_mismatch ch sw rw nw) cs 0.
 Definition violations (cs : list adc_case) : list Z := indices_where case_violates cs 0.
